@@ -27,16 +27,24 @@ KIND_WHAT = {
 }
 
 CASE_FIELDS = ("id", "vers", "key", "keys0", "hist", "mut", "change")
+AUTO_FIELDS = ("id", "vers", "times", "issue", "forge")
+KIND_WHAT["resumed-forged-ticket"] = "session resumed from a ticket the adversary sealed under key material of its own choosing"
 
 
 def sig_of(f):
-    return {k: f[k] for k in ("kind", "vers", "mut", "part", "change", "keyidx", "changed") if k in f}
+    return {k: f[k] for k in ("kind", "vers", "mut", "part", "change", "keyidx", "changed", "forge", "auto") if k in f}
 
 
 def to_cands(records, rejects):
     cands = []
     for idx, facts in rejects:
         rec = records[idx]
+        if "times" in rec:
+            what = "%s (automatic key rotation, TLS 1.%d, connections at hours %s, ticket of connection %d presented at the last one, forgery %s; demanded %s; last connection: resumed c=%s s=%s presented=%s errors c=%r s=%r)" % (
+                KIND_WHAT.get(facts["kind"], facts["kind"]), rec["vers"] - 10, rec["times"], rec["issue"], rec["forge"], facts.get("demand"),
+                rec["present"]["cres"], rec["present"]["sres"], rec["presented"], rec["present"]["cerr"][:80], rec["present"]["serr"][:80])
+            cands.append({"sig": sig_of(facts), "what": what, "case": {k: rec[k] for k in AUTO_FIELDS}})
+            continue
         case = {k: rec[k] for k in CASE_FIELDS}
         what = "%s (TLS 1.%d, mutation %s, keys at issuance %s, history %s, change %s; demanded %s; second connection: resumed c=%s s=%s errors c=%r s=%r)" % (
             KIND_WHAT.get(facts["kind"], facts["kind"]), rec["vers"] - 10, json.dumps(rec["mut"]), rec["keys0"],
@@ -47,17 +55,30 @@ def to_cands(records, rejects):
 
 
 def run_cases(ctx, binary, cases, tag):
-    cpath, opath = ctx.path("c31_cases_%s.ndjson" % tag), ctx.path("c31_obs_%s.ndjson" % tag)
-    write_ndjson(cpath, cases)
-    p = ctx.run(binary, ["run", cpath, opath], timeout=3000)
-    recs = read_ndjson(opath)
-    if len(recs) != len(cases):
-        raise Machinery("harness c31 run produced %d records for %d cases" % (len(recs), len(cases)))
-    return recs
+    """explicit-key histories and automatic-rotation histories (recognised by `times`) in one call"""
+    out = {}
+    for kind, cmd in (("e", "run"), ("a", "runa")):
+        part = [c for c in cases if ("times" in c) == (kind == "a")]
+        if not part:
+            continue
+        cpath, opath = ctx.path("c31_cases_%s_%s.ndjson" % (tag, kind)), ctx.path("c31_obs_%s_%s.ndjson" % (tag, kind))
+        write_ndjson(cpath, part)
+        ctx.run(binary, [cmd, cpath, opath], timeout=3000)
+        recs = read_ndjson(opath)
+        if len(recs) != len(part):
+            raise Machinery("harness c31 %s produced %d records for %d cases" % (cmd, len(recs), len(part)))
+        for c, r in zip(part, recs):
+            out[id(c)] = r
+    return [out[id(c)] for c in cases]
 
 
 def selftest_records(records):
     out = []
+    auto = [r for r in records if "times" in r and r["forge"] != "none" and r["presented"] and r["present"]["sdone"] and not r["present"]["sres"]]
+    if auto:
+        e = copy.deepcopy(auto[0]); e["id"] = -5; e["present"]["sres"] = e["present"]["cres"] = True
+        out.append(e)
+    records = [r for r in records if "times" not in r]
     res = [r for r in records if r["present"]["sres"] and r["mut"]["kind"] == "none" and not r["hist"] and len(r["keys0"]) == 1 and r["change"] == "none"]
     full = [r for r in records if r["changed"] and r["present"]["sdone"] and not r["present"]["sres"]]
     if full:
@@ -83,7 +104,13 @@ def run(ctx):
     if st[1] == 0 or st[2] == 0:
         raise Machinery("generator produced no must-resume or no must-not-resume case (vacuous)")
     ctx.add_samples([cases[len(cases) // 2]], n=1)
+    acases = read_ndjson(ctx.specfile("c31a_cases.ndjson"))
+    if not acases:
+        raise Machinery("generator: no automatic-rotation history")
+    for c in acases:
+        c["id"] += 2 * 10 ** 6
     recs = run_cases(ctx, binary, cases, "gen")
+    arecs = run_cases(ctx, binary, acases, "auto")
 
     nrand = 1500 if quick else 30000
     rpath = ctx.path("c31_random.ndjson")
@@ -93,18 +120,28 @@ def run(ctx):
         c["id"] += 10 ** 6
     rrecs = run_cases(ctx, binary, rcases, "rand")
 
-    allrecs = recs + rrecs
+    allrecs = recs + rrecs + arecs
     st_recs = selftest_records(allrecs)
     rejects = T.judge(ctx, "C31", allrecs + st_recs)
     if len([i for i, _ in rejects if i >= len(allrecs)]) != len(st_recs):
         raise Machinery("binding self-test: a corrupted record was accepted - the judge constrains nothing")
     rejects = [(i, f) for i, f in rejects if i < len(allrecs)]
-    if len(st_recs) < 4 and not rejects:
+    if len(st_recs) < 5 and not rejects:
         raise Machinery("selftest: no resumed / no fallen-back record to corrupt, and nothing rejected (vacuous)")
     cands = to_cands(allrecs, rejects)
     ctx.candidates(binary, cands, reproduce=T.BatchReproducer(ctx, "C31", cands, lambda cs: run_cases(ctx, binary, cs, "repro")))
 
+    erecs = recs + rrecs
+    auto_cov = {"histories": len(arecs),
+                "resumed": sum(1 for r in arecs if r["present"]["sres"]),
+                "key_expired_full": sum(1 for r in arecs if r["forge"] == "none" and r["presented"] and r["present"]["sdone"] and not r["present"]["sres"]),
+                "forged_presented_refused": sum(1 for r in arecs if r["forge"] != "none" and r["presented"] and r["present"]["sdone"] and not r["present"]["sres"]),
+                "span_hours": max(r["times"][-1] - r["times"][0] for r in arecs)}
+    if not auto_cov["resumed"] or not auto_cov["key_expired_full"] or not auto_cov["forged_presented_refused"] or auto_cov["span_hours"] <= 168:
+        raise Machinery("vacuous coverage of automatic rotation: %s" % auto_cov)
+    allrecs = erecs
     cov = {
+        "automatic_rotation": auto_cov,
         "resumed_current_key": sum(1 for r in allrecs if r["present"]["sres"] and not r["hist"]),
         "resumed_after_rotation": sum(1 for r in allrecs if r["present"]["sres"] and r["hist"]),
         "fallback_after_mutation": sum(1 for r in allrecs if r["changed"] and r["present"]["sdone"] and not r["present"]["sres"]),
@@ -119,8 +156,8 @@ def run(ctx):
     if cov["byte_positions_12"] != lens["len12"] or cov["byte_positions_13"] != lens["len13"]:
         raise Machinery("not every ticket byte position was mutated: %s" % cov)
     ctx.cov["observations"] = cov
-    ctx.cov["evaluations"] += len(allrecs)
-    ctx.cov["traces_validated_against_impl"] += len(allrecs)
+    ctx.cov["evaluations"] += len(allrecs) + len(arecs)
+    ctx.cov["traces_validated_against_impl"] += len(allrecs) + len(arecs)
     ctx.cov["distinct_nontrivial"] += len({json.dumps([r[k] for k in CASE_FIELDS[1:]], sort_keys=True) for r in allrecs
                                            if r["changed"] or r["hist"] or r["change"] != "none"})
     ctx.cov["exhaustive"] = True
@@ -137,8 +174,8 @@ def replay(ctx, path):
     binary = ctx.gobuild("c31")
     T.write_facts(ctx, binary)
     out = ctx.path("one.ndjson")
-    ctx.run(binary, ["run-one", path, out])
     body = json.load(open(path))
+    ctx.run(binary, ["runa-one" if "times" in body.get("case", {}) else "run-one", path, out])
     rej = T.judge(ctx, "C31", read_ndjson(out))
     again = any(f.get("kind") == body.get("sig", {}).get("kind") for _, f in rej)
     for _, f in rej:
